@@ -1,11 +1,15 @@
 import Rtcm.Lemmas.Crc
 import Rtcm.Lemmas.Message
 import Rtcm.Gen.Tables
+import Rtcm.Lemmas.Repr
+import Rtcm.Props.C16
 /-
   C07 — serialize and parse are mutual inverses and framing is canonical.
-  PARTIAL: `eval(repr(m))` rebuilding the payload is CPython's `bytes.__repr__` / `eval`; the model
-  proves that a message stores the payload it was given verbatim (`C07_payload_verbatim`), the
-  harness checks `eval(repr(m)).payload == payload` on the implementation.
+  `eval(repr(m))`: Model/Repr.lean models `bytes.__repr__` (quote choice, the escapes it emits) and
+  the fragment of Python's evaluator needed to read such a literal back inside
+  `RTCMMessage(payload=…)`; `C07_eval_repr` proves the round trip for every byte string.  That these
+  two functions are CPython's is validated by the correspondence (`repr` op: all 256 byte values,
+  quote mixes, random payloads), not proved.
 -/
 namespace Rtcm
 
@@ -66,5 +70,32 @@ theorem C07_preamble : Gen.tables.rtcmHdr = 0xD3 := by decide +kernel
 
 /-- non-vacuity: a 2-byte unknown-type payload is constructed and round-trips -/
 example : (construct Gen.tables (some [0xff, 0xf0]) 1).isOk = true := by decide +kernel
+
+/-- **`eval(repr(m))` rebuilds a message with the same payload** (and identity), for every message
+    the constructor returned — whatever its payload bytes (quotes, backslashes, control and
+    non-ASCII bytes) and whatever label option it was built with. -/
+theorem C07_eval_repr (p : Bytes) (l : Nat) (m : Msg) (hc : construct T16 (some p) l = .ok m) :
+    ∃ m', evalRepr T16 m = some (.ok m') ∧ m'.payload = m.payload ∧ m'.id = m.id := by
+  have hp : m.payload = p := construct_payload T16 p l m hc
+  unfold evalRepr
+  rw [evalReprPayload_msgRepr, hp]
+  have hrel := C16_label_changes_cellsig_only (some p) l 1
+  rw [hc] at hrel
+  cases h1 : construct T16 (some p) 1 with
+  | ok m' =>
+    rw [h1] at hrel
+    simp only [MsgRel] at hrel
+    exact ⟨m', by simp [h1], hrel.2.2.1.symm.trans hp, hrel.2.1.symm⟩
+  | lib e => rw [h1] at hrel; simp [MsgRel] at hrel
+  | foreign e => rw [h1] at hrel; simp [MsgRel] at hrel
+
+/-- the literal reader inverts `bytes.__repr__` on every byte string -/
+theorem C07_bytes_literal_roundtrip (m : Msg) : evalReprPayload (msgRepr m) = some m.payload :=
+  evalReprPayload_msgRepr m
+
+/-- non-vacuity: quotes of both kinds, a backslash, TAB / LF / CR, a control and a non-ASCII byte -/
+example : bytesRepr [39, 34, 92, 9, 10, 13, 1, 200, 65]
+    = [98, 39, 92, 39, 34, 92, 92, 92, 116, 92, 110, 92, 114, 92, 120, 48, 49, 92, 120, 99, 56, 65, 39] := by decide
+example : bytesRepr [39, 65] = [98, 34, 39, 65, 34] := by decide
 
 end Rtcm
